@@ -219,6 +219,7 @@ class Interp(object):
         self.functions_seen = set()
         self.param_flags = {}           # name -> flags for fresh symbols
         self.alloc_log = []
+        self.while_log = []             # (fq, lineno, log marks before, after) of the symbolic pass over a while body
         self.alias_log = []             # (fq, lineno, updated name, aliased name, stmt text, 'loop'|'line')
         self.rng_instances = 0
         self.draw_counts = {}
@@ -366,6 +367,15 @@ class Interp(object):
     def exec_stmt(self, st, s, ctx):
         ctx.facts_now = s.facts
         ctx.state_now = s
+        # `x = a if c else b` / `return a if c else b` are the statement `if c: ... else: ...` (same paths, same facts)
+        if isinstance(st, (ast.Assign, ast.AugAssign, ast.AnnAssign, ast.Return)) and isinstance(getattr(st, "value", None), ast.IfExp) \
+                and self.truth(st.value.test, s.env, ctx) is None:
+            import copy as _copy
+            a, b = _copy.copy(st), _copy.copy(st)
+            a.value, b.value = st.value.body, st.value.orelse
+            node = ast.If(test=st.value.test, body=[a], orelse=[b])
+            ast.copy_location(node, st)
+            return self.st_If(node, s, ctx)
         m = getattr(self, "st_" + type(st).__name__, None)
         if m is None:
             self.notes.append("%s: statement %s skipped" % (ctx.finfo.fq, type(st).__name__))
@@ -881,6 +891,22 @@ class Interp(object):
         names, attrs = self._assigned_names(st.body)
         for n in names:
             s.env[n] = unk("while", n, st.lineno)
+        # one symbolic pass over the body for the logs (stores, calls, assignments seen by the rules); the state after
+        # the loop keeps every assigned name unknown - nothing computed in the pass is used as a value
+        try:
+            probe = s.fork("while %s" % norm_text(st.test))
+            ctx.loop_depth += 1
+            mark = (len(self.store_log), len(self.assign_log))
+            self.exec_block(st.body, [probe], ctx)
+            self.while_log.append((ctx.finfo.fq, st.lineno, mark, (len(self.store_log), len(self.assign_log))))
+        except AnalysisError:
+            raise
+        except Exception:
+            pass
+        finally:
+            ctx.loop_depth -= 1
+        for n in names:
+            s.env[n] = unk("while", n, st.lineno)
         return [s]
 
     # ----------------------------------------------------------- expressions
@@ -1247,6 +1273,12 @@ class Interp(object):
                 return Rat.atom(Fn("mod", (l, r)))
         except ZeroDivisionError:
             return unk("zerodiv")
+        if isinstance(op, (ast.BitAnd, ast.BitOr, ast.BitXor)):
+            # commutative: one normal form for a & b and b & a
+            try:
+                l, r = sorted((l, r), key=lambda x: repr(vkey(x)))
+            except Exception:
+                pass
         return Rat.atom(Fn("op_" + type(op).__name__, (l, r)))
 
     def ev_BoolOp(self, e, env, ctx):
@@ -1887,6 +1919,35 @@ def _outer(I, a, k, e, env, ctx):
     return NotImplemented
 
 
+@ext("numpy.reshape")
+def _reshape_fn(I, a, k, e, env, ctx):
+    if len(a) >= 2 and isinstance(a[0], Rat):
+        return Rat.atom(Fn("reshape", (a[0], a[1])))
+    return NotImplemented
+
+
+@ext("numpy.clip")
+def _clip_fn(I, a, k, e, env, ctx):
+    if len(a) >= 3 and isinstance(a[0], Rat) and "out" not in k:
+        return Rat.atom(Fn("clip", (a[0], a[1], a[2])))
+    return NotImplemented
+
+
+@ext("numpy.shape")
+def _shape_fn(I, a, k, e, env, ctx):
+    if len(a) == 1 and isinstance(a[0], Rat):
+        return ShapeOf(a[0])
+    return NotImplemented
+
+
+@ext("scipy.ndimage.map_coordinates", "scipy.ndimage.interpolation.map_coordinates")
+def _map_coordinates(I, a, k, e, env, ctx):
+    if len(a) >= 2 and isinstance(a[0], Rat):
+        return Rat.atom(Fn("map_coordinates", (a[0], tuple(a[1]) if isinstance(a[1], (list, tuple)) else a[1],
+                                               _vk(k.get("order", 3)), _vk(k.get("mode", "constant")))))
+    return NotImplemented
+
+
 @ext("numpy.roll")
 def _roll(I, a, k, e, env, ctx):
     if a and isinstance(a[0], Rat):
@@ -2103,7 +2164,7 @@ def _next_fast_len(I, a, k, e, env, ctx):
 @ext("numpy.triu_indices", "numpy.tril_indices", "numpy.diag_indices", "numpy.triu_indices_from", "numpy.tril_indices_from",
      "numpy.triu", "numpy.tril", "numpy.trim_zeros", "numpy.unique", "numpy.argsort", "numpy.searchsorted", "numpy.take",
      "numpy.compress", "numpy.nonzero", "numpy.broadcast_to", "numpy.expand_dims", "numpy.squeeze", "numpy.atleast_2d",
-     "numpy.atleast_1d", "numpy.isscalar", "numpy.ndim", "numpy.shape", "numpy.size", "numpy.issubdtype", "numpy.iscomplexobj",
+     "numpy.atleast_1d", "numpy.isscalar", "numpy.ndim", "numpy.size", "numpy.issubdtype", "numpy.iscomplexobj",
      "numpy.isrealobj", "numpy.result_type")
 def _named2(I, a, k, e, env, ctx):
     nm = norm_text(e.func).split(".")[-1]
